@@ -51,6 +51,9 @@ CHECKS = {
  "C05": ("model_checking", "TLA+ spec Format.tla (writers / readers of the checkpoint text over token streams, transcribed from the serialize members and stream constructors): TLC proves Read(Write(c)) = c on 369 abstract checkpoints (MC_Format); trace validation (Trace_C05): token shape of every real checkpoint text = shape of the spec's writer for the same structure, stream good, all fields and generators bit-equal after reading back",
          "Structure (field order, name line, counts, conditional first grid / weights, separators) is decided by the specification; bit fidelity of the numeric fields is checked by the driver over value classes for three numeric types and 9 engines.",
          "TLC; decimal conversion (max_digits10 + operator>>) is checked, not derived; engine operator==", "5/C05"),
+ "C18": ("fault_enumeration", "TLA+ spec FileSys.tla (file contents under open / write / rename with a kill possible in every state and inside every write): TLC shows tmp+rename keeps FileCompleteOrAbsent and the direct protocol violates it (MC_FileSys); the real system-call log of the built-in callback (LD_PRELOAD interposer) is validated against the spec (Trace_C18) and drives the enumeration of kill points: every call x before/after x byte prefixes, each followed by classification of the file on disk against reference texts and a resumed run",
+         "Crash points are enumerated from the observed protocol, not sampled; each killed execution is one trace TLC validates: the spec predicts what must be on disk and requires the resumed run to end byte-identically to the uninterrupted one.",
+         "TLC; LD_PRELOAD interposer (process kill via _exit; power loss / fsync out of scope; close() inside libc is not observed); reference texts from an uninterrupted run", "5/C18"),
 }
 
 NOT_YET = {}
